@@ -1027,6 +1027,13 @@ class Walker:
             if s[1] < barrier:
                 ctx.fail("C07.barrier", "starts_before_last_shift",
                          f"{name}: pulse starts {s[1]} < latest shift time {barrier}")
+            # the model's own time of the last reference-changing shift: the end of the
+            # latest pulse that had used the atom in this basis when the shift was made
+            bnz = max([self.pre_shift_nz.get((basis, q), 0) for q in T] or [0])
+            if s[1] < bnz:
+                ctx.fail("C07.barrier", "starts_before_last_real_shift",
+                         f"{name}: pulse starts {s[1]} < time of the latest non-zero shift of its targets {bnz} "
+                         f"(the tree registered it at {barrier})")
             if any(self.pre_nshifts.get((basis, q), 0) >= 2 for q in T):
                 self.stats["nt_c07"] += 1
 
